@@ -21,8 +21,10 @@ CLAIMED = {
              ref="DESIGN.md 4 (C06)", note=TRUST, tech=TECH),
  "C07": dict(text="Seeded search over (1-6 sorted sequences with empty ones anywhere, lengths 0..40, key universe 1..6, one dominant sequence; size = total / 0 / random; threads 1..8 and 32 incl. more threads than elements; exact and sampling splitting, oversampling 1..4; all four merge algorithms; stable/unstable; sentinel entry points with a real sentinel element; the six public entry points with force_parallel or randomised minimal_k/minimal_n) x interleavings of the fork/join workers; oracles against an independent reference (stable sort of (value, sequence, position) triples): output values, exact origins for stable variants, return == target+size, guard cells behind size untouched, input begins advanced past exactly the contributed elements, one writing thread per output slot (assignment log), ASan, TSan. Sampling, not proof.",
              ref="DESIGN.md 4 (C07)", note=TRUST, tech=TECH),
+ "C04": dict(text="Seeded search over (string multisets: random over 1-4 letters, all-equal, all-empty, long shared prefixes diverging around the 8/16-byte key boundary, bytes 0x01-0xFF, duplicate-heavy, prefix chains; n 0..600) x (9 parameter sets: the default through the public front ends and 8 tiny-threshold / small-splitter-tree tunings over three classifiers, 32- and 64-bit keys, work sharing and rest-size on/off) x (unsigned char*, const unsigned char*, std::string, unique_ptr<std::string>, suffix sets) x with/without LCP x worker counts 1..8 x interleavings of the job graph, wake-up choice, spurious wake-ups and the sampling RNG (seeded by the simulator instead of a heap address, incl. a degenerate constant stream); oracles: permutation of the original objects, unsigned-byte order, exact LCP array, termination (deadlock / step bound), ASan (released work items), TSan. Sampling, not proof.",
+             ref="DESIGN.md 4 (C04)", note=TRUST, tech=TECH),
 }
-PENDING = ["C02", "C04", "C16", "C17"]
+PENDING = ["C02", "C16", "C17"]
 NA = {
  "C01":"pure function of a single-threaded call history: no schedule, clock, fault or environment seam in the statement (model-based testing, not simulation) - DESIGN.md 5",
  "C03":"sequential string sorts are pure functions of (strings, memory limit); nothing for a scheduler or fault injector to own - DESIGN.md 5",
